@@ -24,7 +24,7 @@ EXTENDS MMonBase
 
 MonInit == [cfg |-> [assocs |-> <<>>], sc |-> "", viol |-> <<>>, out |-> NoOut,
             lastU |-> <<>>]       \* <<[a, seq, hash, iin, con]>> last accepted unsolicited fragment per outstation
-V(m, reason, l, ctx) == [m EXCEPT !.viol = Append(@, Viol("C15", reason, l, m.sc, ctx))]
+V(m, reason, l, ctx) == [m EXCEPT !.viol = IF Len(@) >= 300 THEN @ ELSE Append(@, Viol("C15", reason, l, m.sc, ctx))]
 
 ItemKey(c) == <<c.i[2], c.i[3], c.i[4]>>          \* group, variation, index as delivered
 WireKey(o) == <<o.g, o.v, o.ix>>
